@@ -182,7 +182,47 @@ func scTransportChannel(r *Run) {
 			}
 		}
 		tc := NewTClient(r, n, srv, copts)
-		if err := tc.C.Handshake(); err != nil {
+		if !hidden && r.Intn("early-forgery", 3) == 0 {
+			// while the handshake is in progress the session exists on the server but has no keys yet; its
+			// identifier is in the clear in the ServerAuth.  Packets for it that are sealed correctly under keys
+			// anybody can guess arrive before the client's last handshake message.
+			caddr := copts.Addr
+			n.Tap = func(d *Dgram) bool {
+				if len(d.Data) >= 8 && d.Data[0] == 0x04 && d.Dst.String() == caddr.String() {
+					var sid [4]byte
+					copy(sid[:], d.Data[4:8])
+					for q := 0; q < 1+r.Intn("early-forgery", 3); q++ {
+						var key [16]byte
+						switch r.Intn("early-forgery", 3) {
+						case 1:
+							for i := range key {
+								key[i] = 0xff
+							}
+						case 2:
+							copy(key[:], sid[:])
+						}
+						mt := transport.MessageTypeTransport
+						if r.Intn("early-forgery", 4) == 0 {
+							mt = transport.MessageTypeControl
+						}
+						pkt, err := transport.VerifSealWithKey(sid, uint64(r.Intn("early-forgery", 3)), key, mt, []byte("forged-during-the-handshake"))
+						if err != nil {
+							continue
+						}
+						from := caddr
+						if r.Intn("early-forgery", 3) == 0 {
+							from = Addr(99, 999)
+						}
+						n.Inject(from, srv.Addr, pkt, time.Duration(r.Intn("early-forgery", 1500))*time.Microsecond, "guessable-key packet during the handshake")
+						r.CountFault("guessable-key-packet-during-handshake", 1)
+					}
+				}
+				return true
+			}
+		}
+		err := tc.C.Handshake()
+		n.Tap = nil
+		if err != nil {
 			r.Violate("C03/nofault/handshake-failed", "honest handshake on a faithful network failed: %v", err)
 			return
 		}
